@@ -381,6 +381,19 @@ def main():
         return run_check(pid, P, tier, seed, replay, t0)
 
 
+# expression sites of regen.py -> the function whose whole body the skeleton translators regenerate (tools/skel.py, tools/skelagg.py)
+SITE_FN = {
+    'g_safety_rule_1': 'make_vote', 'g_safety_rule_2': 'make_vote', 'g_can_extend': 'make_vote', 'g_can_extend_hq': 'make_vote',
+    'g_commit_skip': 'commit', 'g_commit_walk': 'commit', 'g_commit_stop': 'commit', 'g_commit_anc_front': 'commit', 'g_commit_head_front': 'commit',
+    'g_commit_pop_back': 'commit', 'g_commit_head_first': 'commit',
+    'g_update_high_qc': 'update_high_qc', 'g_vote_stale': 'handle_vote', 'g_timeout_stale': 'handle_timeout', 'g_tc_stale': 'handle_tc',
+    'g_advance_guard': 'advance_round', 'g_advance_next': 'advance_round', 'g_two_chain': 'process_block', 'g_round_gate': 'process_block',
+    'g_block_stake': 'block_verify', 'g_vote_stake': 'vote_verify', 'g_timeout_stake': 'timeout_verify',
+    'g_qc_entry_stake': 'qc_verify', 'g_qc_weight': 'qc_verify', 'g_tc_entry_stake': 'tc_verify', 'g_tc_weight': 'tc_verify',
+    'g_qcm_threshold': 'qcmaker_append', 'g_qcm_reset': 'qcmaker_append', 'g_tcm_threshold': 'tcmaker_append', 'g_tcm_reset': 'tcmaker_append',
+}
+
+
 def run_check(pid, P, tier, seed, replay, t0):
     os.makedirs(os.path.join(VERIF, 'evidence'), exist_ok=True)
     violations = []      # (kind, message, replay-payload, has_input)
@@ -402,6 +415,19 @@ def run_check(pid, P, tier, seed, replay, t0):
     for extra in P.get('extra_props', []) + ties:
         o2, d2, p2, n2, pf2 = props_audit(extra, P.get('coq_timeout', 1500))
         obligations += o2; discharged += d2; problems += p2; names += ['%s.%s' % (extra, n) for n in n2]; pf += pf2
+    # An expression site that regen.py no longer recognises keeps its committed definition.  When the WHOLE function around it is regenerated
+    # by the skeleton translators and its tie theorem still checks (gen_f, read off the current source, equals the model function that calls
+    # that committed definition -- for every input), the committed definition is still what the code says: the site is tied by theorem.
+    covered = []
+    for u in list(untied):
+        fn = SITE_FN.get(u[0])
+        if fn and ('gen_' + fn) not in [x[0] for x in untied]:
+            okc, _, _, _ = coq_build(['Props/Tie_%s.vo' % fn], P.get('coq_timeout', 1500))
+            if okc:
+                covered.append([u[0], u[1], 'tied by theorem Tie_%s' % fn])
+    if covered:
+        untied = [u for u in untied if u[0] not in [c[0] for c in covered]]
+        notes.append('sites not recognised by regen.py but tied by the tie theorem of the enclosing function: %s' % covered)
     supporting = count_supporting(pid)
     bad_tokens = forbidden_audit()
     proof_ok = ok and not problems and not bad_tokens and discharged == obligations
